@@ -155,8 +155,8 @@ class Gen:
 
     def quote_for(self, body, raw, triple_ok=True):
         qs = ["'", '"']
-        if triple_ok and not self.infs:
-            qs += ["'''", '"""']
+        if triple_ok:
+            qs += ["'''", '"""']       # also inside f-string fields (repaired by /repo c09f12b)
         qs = [q for q in qs if q[0] not in self.fsq]
         self.r.shuffle(qs)
         for q in qs:
@@ -329,7 +329,7 @@ class Gen:
             # known findings: an empty plain literal next to an f-string is kept as an empty Constant; a `u`
             # prefix does not reach the format-spec constants
             pieces = [x[1:] if x[:1] == "u" else x for x in pieces]
-            pieces = [x for x in pieces if not _is_empty_plain(x)] or ["'a'"]
+            # (empty plain pieces next to an f-string are generated again: repaired by /repo dfa74fc)
         sep = (lambda: self.S()) if self.br else (lambda: self.ch([" ", " ", "  "]))
         out = pieces[0]
         for x in pieces[1:]:
